@@ -76,3 +76,73 @@ let run (id : string) (ops : string list) (out : out_channel) =
   Stdlib.List.iteri (fun i s -> Printf.fprintf out "%s\t%d\t%s\n" id i (run_op s)) ops
 
 let registered = Registry.register "C08" run
+
+(* ---- extraction cross-check inside Coq (see c18.ml): every op of a sampled case calls one model
+   function; the call (as a Gallina term) must evaluate by vm_compute to the value this extracted
+   runner computed.  Large inputs (ccr: with long repeats, flipall on long packets) are not restated. *)
+let coq_layer = function
+  | C08Model.LIp4 -> "LIp4" | C08Model.LTcp -> "LTcp" | C08Model.LUdp -> "LUdp"
+  | C08Model.LIcmp4 -> "LIcmp4" | C08Model.LIcmp6 -> "LIcmp6" | C08Model.LGre -> "LGre"
+let coq_pseudo = function
+  | C08Model.PNone -> "PNone"
+  | C08Model.P4 (a, b) -> Printf.sprintf "(P4 %s %s)" (coq_zlist a) (coq_zlist b)
+  | C08Model.P6 (a, b) -> Printf.sprintf "(P6 %s %s)" (coq_zlist a) (coq_zlist b)
+let coq_vres (v : C08Model.vres) =
+  Printf.sprintf "{| v_valid := %s; v_correct := %s; v_actual := %s |}" (coq_bool v.C08Model.v_valid) (coq_z v.C08Model.v_correct) (coq_z v.C08Model.v_actual)
+let coq_vout (r : C08Model.vres Base.outcome) = coq_outcome coq_vres r
+
+let to_coq_op (name : string) (s : string) (out : out_channel) : unit =
+  let ex lhs rhs = coq_example_named out name lhs rhs in
+  match split_on ':' s with
+  | ["fold"; a] -> let x = z_of_hex a in ex ("FoldChecksum " ^ coq_z x) (coq_z (C08Model.coq_FoldChecksum x))
+  | ["cc"; a] -> (match split_on ',' a with
+      | [acc; h] ->
+        let d = bytes_of_hex h and a0 = z_of_hex acc in
+        let c = C08Model.coq_ComputeChecksum d a0 in
+        if Stdlib.List.length d <= 300 then
+          ex (Printf.sprintf "(let c := ComputeChecksum %s %s in (c, FoldChecksum c))" (coq_zlist d) (coq_z a0))
+            (coq_pair coq_z coq_z (c, C08Model.coq_FoldChecksum c))
+      | _ -> ())
+  | ["ccr"; a] -> (match split_on ',' a with
+      | [acc; b; n; tl] when int_of_string n <= 3000 ->
+        let bz = z_of_int (int_of_string b) and nz = z_of_int (int_of_string n) and t = bytes_of_hex tl and a0 = z_of_hex acc in
+        let c = C08Model.coq_ComputeChecksum (C08Model.rep_bytes bz nz t) a0 in
+        ex (Printf.sprintf "(let c := ComputeChecksum (rep_bytes %s %s %s) %s in (c, FoldChecksum c))" (coq_z bz) (coq_z nz) (coq_zlist t) (coq_z a0))
+          (coq_pair coq_z coq_z (c, C08Model.coq_FoldChecksum c))
+      | _ -> ())
+  | ["emit"; a] -> (match split_on ',' a with
+      | [l; p; src; dst; h] when String.length h <= 400 ->
+        let ly = layer_of l and ps = pseudo_of p src dst and bs = bytes_of_hex h in
+        ex (Printf.sprintf "emit %s %s %s" (coq_layer ly) (coq_pseudo ps) (coq_zlist bs))
+          (coq_outcome (coq_pair (coq_option coq_z) coq_zlist) (C08Model.emit ly ps bs))
+      | _ -> ())
+  | ["ver"; a] -> (match split_on ',' a with
+      | [l; p; src; dst; h] when String.length h <= 400 ->
+        let ly = layer_of l and ps = pseudo_of p src dst and bs = bytes_of_hex h in
+        ex (Printf.sprintf "verify %s %s %s" (coq_layer ly) (coq_pseudo ps) (coq_zlist bs)) (coq_vout (C08Model.verify ly ps bs))
+      | _ -> ())
+  | ["flip"; a] -> (match split_on ',' a with
+      | [l; p; src; dst; h; i] when String.length h <= 400 ->
+        let ly = layer_of l and ps = pseudo_of p src dst and bs = bytes_of_hex h and k = nat_of_int (int_of_string i) in
+        ex (Printf.sprintf "verify_flipped %s %s %s %s" (coq_layer ly) (coq_pseudo ps) (coq_zlist bs) (coq_nat k))
+          (coq_vout (C08Model.verify_flipped ly ps bs k))
+      | _ -> ())
+  | ["flips"; a] -> (match split_on ',' a with
+      | [l; p; src; dst; h; bits] when String.length h <= 400 ->
+        let ly = layer_of l and ps = pseudo_of p src dst and bs = bytes_of_hex h in
+        let ks = Stdlib.List.map (fun b -> nat_of_int (int_of_string b)) (split_on '/' bits) in
+        if Stdlib.List.length ks <= 16 then
+          ex (Printf.sprintf "map (verify_flipped %s %s %s) %s" (coq_layer ly) (coq_pseudo ps) (coq_zlist bs) (coq_list coq_nat ks))
+            (coq_list coq_vout (Stdlib.List.map (fun k -> C08Model.verify_flipped ly ps bs k) ks))
+      | _ -> ())
+  | ["flipall"; a] -> (match split_on ',' a with
+      | [l; p; src; dst; h] when String.length h <= 40 ->
+        let ly = layer_of l and ps = pseudo_of p src dst and bs = bytes_of_hex h in
+        ex (Printf.sprintf "verify_all_flips %s %s %s" (coq_layer ly) (coq_pseudo ps) (coq_zlist bs))
+          (coq_list coq_vout (C08Model.verify_all_flips ly ps bs))
+      | _ -> ())
+  | _ -> ()
+
+let to_coq (idx : int) (ops : string list) (out : out_channel) =
+  Stdlib.List.iteri (fun i s -> if i < 4 then to_coq_op (Printf.sprintf "sample_%d_%d" idx i) s out) ops
+let registered_coq = Registry.register_coq "C08" ("From GP Require Import Base C08Model.\n", to_coq)
